@@ -142,7 +142,10 @@ def compare(m, r, S, tol=1e-9):
             dv = cf - b["center"]
             if rot != 0:
                 dv = dv - np.round(dv)
-            if not np.all(np.abs(dv) <= tol * (1 + np.abs(cf))):
+            # conditioning of the float centroid formula: numerator and area are sums of n products of coordinates of size
+            # M <= 2, so the quotient carries an absolute error of order n * eps * M^3 / area (matters only for tiny plaquettes)
+            cond = 512 * n * 2.3e-16 / (a["area2"] / (2.0 * S * S))
+            if not np.all(np.abs(dv) <= tol * (1 + np.abs(cf)) + cond):
                 diffs.append((f"plaquette[{i}].center", f"model {cf} impl {b['center']}"))
         if b["n_sides"] != n:
             diffs.append((f"plaquette[{i}].n_sides", ""))
